@@ -795,10 +795,11 @@ impl World {
         let ifc: Option<ifund::ConfigResponse> = self.q(&self.ifund, &ifund::QueryMsg::Config {});
         let ifv = self.if_vamms();
         s.push_str(&format!(
-            " if.owner={} if.engine={} if.vamms={}",
+            " if.owner={} if.engine={} if.vamms={} if.stored={}",
             self.if_owner(),
             ifc.map(|c| self.oid(&c.engine)).unwrap_or(0),
-            if ifv.is_empty() { "none".to_string() } else { ifv.iter().map(|a| self.id(a).to_string()).collect::<Vec<_>>().join(",") }
+            if ifv.is_empty() { "none".to_string() } else { ifv.iter().map(|a| self.id(a).to_string()).collect::<Vec<_>>().join(",") },
+            self.raw(&self.ifund, b"vamm-list").is_some() as u8
         ));
         // fee pool
         let toks: Vec<AssetInfo> = self.raw(&self.feepool, b"token-list").and_then(|v| serde_json::from_slice(&v).ok()).unwrap_or_default();
